@@ -31,8 +31,10 @@ def make_doc(seed, family, i, **kw):
         kw["default_dialect"] = kw["dialect"]
     size = kw.get("size") or r.choice(["small", "medium", "medium", "large"] if i % 7 == 0 else ["small", "medium", "medium"])
     rare = kw.get("rare", i % 4 == 0)
+    # every sixth document draws names, texts, cells and tag lines from a tiny pool: many identical lines at different places
+    dup = kw.get("dup", 0.6 if i % 6 == 5 else 0.0)
     return docmodel.render(r, dialect=kw.get("dialect"), size=size, rare=rare, ascii_only=kw.get("ascii_only", False),
-                           special=kw.get("special", 0.0), deep=kw.get("deep", False), default_dialect=kw.get("default_dialect", "en"))
+                           special=kw.get("special", 0.0), deep=kw.get("deep", False), default_dialect=kw.get("default_dialect", "en"), dup=dup)
 
 
 def generator_sound(R):
